@@ -34,7 +34,7 @@ def main():
     for mod, cfg in (("Knuth", "Knuth_small"), ("Redc", "Redc_small"), ("Redc", "Redc_square_small"), ("Redc", "Redc_square_3limb"), ("LimbShift", "LimbShift_small"), ("AddMul", "AddMul_small"),
                      ("MG10", "MG10_2x1_small"), ("MG10", "MG10_3x2_small"), ("MG10", "MG10_recip2_small"),
                      ("Lehmer", "Lehmer_prefix_small"), ("Lehmer", "Lehmer_full_small"), ("Lehmer", "Lehmer_ext_small"),
-                     ("Lehmer", "Lehmer_ext_narrow"), ("Lehmer", "Lehmer_inv_small"), ("Root", "Root_small"), ("InvRing", "InvRing_small"), ("InvRing", "InvRing_w8"), ("Fmt", "Fmt_small"), ("Div", "Div_small"), ("Log", "Log_small"),
+                     ("Lehmer", "Lehmer_ext_narrow"), ("Lehmer", "Lehmer_inv_small"), ("Root", "Root_small"), ("InvRing", "InvRing_small"), ("InvRing", "InvRing_w8"), ("Fmt", "Fmt_small"), ("Div", "Div_small"), ("Log", "Log_small"), ("Float", "Float_to_small"), ("Float", "Float_from_small"),
                      ("Pow", "Pow_pow_small"), ("Pow", "Pow_powmod_small"), ("Pow", "Pow_addmod_small"),
                      ("BaseConv", "BaseConv_spigot_small"), ("BaseConv", "BaseConv_le_small"), ("BaseConv", "BaseConv_be_small")):
         meta = os.path.join(vlib.OUT, "algo_" + cfg)
